@@ -1,4 +1,5 @@
 import PgBifrost.Model.Batcher
+import PgBifrost.Model.BatcherTimed
 import PgBifrost.Model.Partitioner
 import PgBifrost.Model.Util
 /-! Line protocol for the batch and batcher models. -/
@@ -30,12 +31,24 @@ structure DState where
   cfg : Cfg := ⟨1, .roundRobin, 0, 0, 1⟩
   s : State := {}
   km : Option KinesisMethod := none
+  /-- timed layer (`Model/BatcherTimed.lean`) run with the INDEX of the message op as clock reading: per open
+  key, which op created its batch and which op last moved its modify time -/
+  idxTimes : List BTimes := []
+  nmsg : Nat := 0
 
 instance : Inhabited DState := ⟨{}⟩
 
+/-- `pm-<documented partition method name>`: the Kinesis factory's decision is then the model's
+(`Partitioner.kinesisMethodFor`, tied to the source by `kinesis_factory_as_modelled`) -/
+def pmOfName (meth : String) : Option Partitioner.Method :=
+  if meth == "pm-none" then some .none else if meth == "pm-tablename" then some .tableName
+  else if meth == "pm-transaction" then some .txn else if meth == "pm-transaction-bucket" then some .txnBucket else none
+
 def parseKMeth (s : String) : Option KinesisMethod :=
   match s.splitOn ":" with
-  | "kinesis" :: meth :: _ => if meth == "walstart" then some .walStart else if meth == "batch" then some .batch else none
+  | "kinesis" :: meth :: _ =>
+    if meth == "walstart" then some .walStart else if meth == "batch" then some .batch
+    else (pmOfName meth).map Partitioner.kinesisMethodFor
   | _ => none
 
 def parseKind (s : String) : Option Kind :=
@@ -45,7 +58,8 @@ def parseKind (s : String) : Option Kind :=
     match a.toNat?, b.toNat?, c.toNat? with
     | some a, some b, some c =>
       if meth == "walstart" then some (kinesisKind a b c .walStart)
-      else if meth == "batch" then some (kinesisKind a b c .batch) else none
+      else if meth == "batch" then some (kinesisKind a b c .batch)
+      else (pmOfName meth).map fun pm => kinesisKind a b c (Partitioner.kinesisMethodFor pm)
     | _, _, _ => none
   | ["kafka", a, b, _] =>
     match a.toNat?, b.toNat? with
@@ -83,13 +97,16 @@ def handle (st : DState) (args : List String) : DState × String :=
     match parseKind kind, workers.toNat?, upd.toInt?, mx.toInt?, mem.toInt? with
     | some K, some w, some upd, some mx, some mem =>
       let r := if routing == "partition" then Routing.partition else Routing.roundRobin
-      ({ K := K, cfg := ⟨w, r, upd, mx, mem⟩, s := {}, km := parseKMeth kind }, "ok")
+      ({ K := K, cfg := ⟨w, r, upd, mx, mem⟩, s := {}, km := parseKMeth kind, idxTimes := [], nmsg := 0 }, "ok")
     | _, _, _, _, _ => (st, "bad-op")
   | "msg" :: rest =>
     match parseMsg rest with
     | some m =>
       let (s', evs) := step st.K st.cfg st.s (.msg m)
-      ({ st with s := s' }, showEvs st.km evs)
+      let n := st.nmsg + 1
+      let it := if st.s.dead then st.idxTimes
+                else BatcherTimed.setTimes st.idxTimes (BatcherTimed.msgEntry st.K st.s st.idxTimes m (n : Int))
+      ({ st with s := s', idxTimes := it, nmsg := n }, showEvs st.km evs)
     | none => (st, "bad-op")
   | ["tick", now, times, order] =>
     match now.toInt?, parseTimes times, (splitList order).mapM unhex with
@@ -98,6 +115,21 @@ def handle (st : DState) (args : List String) : DState × String :=
       let (s', evs) := step st.K st.cfg st.s (.tick now times order)
       ({ st with s := s' }, s!"valid={valid} {showEvs st.km evs}")
     | _, _, _ => (st, "bad-op")
+  | ["tick", now, times, order, idx] =>
+    -- as above, plus `idx`: per open key the message ops in whose clock brackets the observed create / modify
+    -- times of the real batch fall; compared with the timed layer's prediction
+    match now.toInt?, parseTimes times, (splitList order).mapM unhex, parseTimes idx with
+    | some now, some times, some order, some idx =>
+      let valid := validTick st.K st.cfg now st.s times order
+      let bad := st.s.openB.filterMap fun (pk, _) =>
+        match timesOf st.idxTimes pk, timesOf idx pk with
+        | some p, some o => if p.ctime == o.ctime && p.mtime == o.mtime then none
+                            else some s!"{hex pk}:model={p.ctime}/{p.mtime}:impl={o.ctime}/{o.mtime}"
+        | some _, none => some s!"{hex pk}:not-observed"
+        | none, _ => some s!"{hex pk}:no-prediction"
+      let (s', evs) := step st.K st.cfg st.s (.tick now times order)
+      ({ st with s := s' }, s!"valid={valid} times={if bad.isEmpty then "ok" else joinList bad ";"} {showEvs st.km evs}")
+    | _, _, _, _ => (st, "bad-op")
   | ["open"] => (st, showOpen st.s)
   | _ => (st, "bad-op")
 
